@@ -135,7 +135,9 @@ def d4(ctx):
             n_rej += 1
             ok = len(pre) == 1 and increment_of(pre[0], fl) == SIZE
             yield Ob(key_of("C20-D4", b.path, "reject-adds-size", n_rej), ok, "reject arm: exactly one addition of `size` before returning None", ctx.loc(r))
-        yield Ob(key_of("C20-D4", b.path, "two-reject-arms"), n_rej == 2, "both reject arms (too small for a node; below the minimum segment size) were found and judged (%d)" % n_rej, b.loc())
+        # every None return that is not the empty request was judged above (a silent None has no addition and fails `reject-adds-size`); how many arms the
+        # source spells the two rejections with (two ifs, one merged match arm) does not matter - but there must be one, and a Some return
+        yield Ob(key_of("C20-D4", b.path, "reject-arms"), n_rej >= 1 and len(somes) == 1, "reject returns found and judged: %d; accept returns: %d" % (n_rej, len(somes)), b.loc())
         for r in somes:
             pre = [w for w in ws if b.dominates((w["chain"][0][1] if w["chain"] else w["bb"]), r["bb"])]
             yield Ob(key_of("C20-D4", b.path, "accept-adds-nothing"), not pre, "accept arm returns the segment without touching discarded", ctx.loc(r))
